@@ -180,7 +180,7 @@ class Prop(PropBase):
             if sigs.is_complex(case["cls"]):
                 z.chan_bw = rate
             if case["t0"] is not None:
-                z.start_time = Time(case["t0"], precision=9)
+                z.start_time = sigs.T(case["t0"])
         else:
             z = sigs.make(pb, case["cls"], case["L"], rate, case["t0"], nchan=2, extra=())
         tref = z.start_time
